@@ -16,6 +16,7 @@ EXPLANATION = (
     "(cleared in the same block), then None; is_empty is `no invalid suffix && prefix exhausted`; Iterator::next delegates to next_flag. R13.9 is_number: once every byte passed the scan the result is true unless an exponent marker is the last byte. NOT decided: byte-for-byte "
     "re-assembly for all inputs, the in-loop part of the language of is_number."
     ' R13.1 (added): an unsafe block is covered when every call in it is ext::split_at / from_encoded_bytes_unchecked (checked per call site) or an ordinary safe call; a written-out split_at is judged by the same boundary provenance.'
+    ' R13.3 lemma (added): OsStrExt::find reaches its scan whenever len >= needle.len() and walks to the last start position.'
 )
 TRUSTED = ["rustc MIR", "clapfacts", "lib/panics.py", "audit/panic.tsv", "std: char_indices/valid_up_to/str::find return char boundaries"]
 ASSUMPTIONS = ["OsStr encoded bytes are a superset of UTF-8 in which any split adjacent to valid UTF-8 text is sound (std documentation of from_encoded_bytes_unchecked)"]
